@@ -413,8 +413,16 @@ def root_tags(root):
     return {'root:above-1' if root > 1 else 'root:upto-1'}
 
 
+SCALES = (1e6, 1e9, 1e12, 1e-6)     # the root does not depend on the unit
+
+
+def scaled(c):
+    k = c.get('scale')
+    return [v * k for v in c['flows']] if k else c['flows']
+
+
 def case_irr(c, ctx):
-    flows, route = c['flows'], c['route']
+    flows, route = scaled(c), c['route']
     assert fin.one_root_flows(flows)
     root = fin.irr(flows)
     if root is None:
@@ -437,13 +445,15 @@ def case_irr(c, ctx):
         raise AssertionError(route)
     tags = ({'fn:IRR', 'route:' + route} | flow_tags(flows) |
             root_tags(root))
+    if c.get('scale'):
+        tags.add('scale:%g' % c['scale'])
     key = 'C20/IRR/v=%s/r=%s' % (c.get('name') or fl(flows), route)
     judge_root(ctx, key, tags, c, got, root,
                lambda r: fin.irr_f(r, flows), sum(abs(v) for v in flows))
 
 
 def case_xirr(c, ctx):
-    flows, gaps, route = c['flows'], c['gaps'], c['route']
+    flows, gaps, route = scaled(c), c['gaps'], c['route']
     assert fin.one_root_flows(flows)
     dates = dates_of(gaps)
     root = fin.xirr(flows, dates)
@@ -466,6 +476,8 @@ def case_xirr(c, ctx):
             root_tags(root))
     if 1 in gaps:
         tags.add('gap:one-day')
+    if c.get('scale'):
+        tags.add('scale:%g' % c['scale'])
     key = 'C20/XIRR/v=%s/g=%s/r=%s' % (c.get('name') or fl(flows),
                                        gaps_name(gaps), route)
     judge_root(ctx, key, tags, c, got, root,
@@ -707,6 +719,10 @@ def run_shard(sh, ctx):
             for route in ('call-list', 'call-row', 'call-col', 'call-guess',
                           'f-col', 'f-row'):
                 run_case({'op': 'IRR', 'flows': flows, 'route': route}, ctx)
+            if k <= 3:
+                for sc in SCALES:
+                    run_case({'op': 'IRR', 'flows': flows, 'scale': sc,
+                              'route': 'call-list'}, ctx)
         ctx.sample({'op': 'IRR', 'outlay': c, 'returns': k})
     elif s == 'xirr':
         c, k, r1 = sh['c'], sh['k'], sh['r1']
@@ -723,6 +739,9 @@ def run_shard(sh, ctx):
                     for route in ('call-guess', 'f-range'):
                         run_case({'op': 'XIRR', 'flows': flows,
                                   'gaps': list(gaps), 'route': route}, ctx)
+                    for sc in SCALES:
+                        run_case({'op': 'XIRR', 'flows': flows, 'scale': sc,
+                                  'gaps': list(gaps), 'route': 'call'}, ctx)
     else:
         raise AssertionError(s)
 
